@@ -8,6 +8,7 @@ import (
 	"fmt"
 	"os"
 	"path/filepath"
+	"runtime"
 	"time"
 
 	"verif/sim/core"
@@ -83,6 +84,7 @@ func main() {
 			fmt.Fprintln(os.Stderr, "scenario does not decode:", err)
 			os.Exit(2)
 		}
+		runtime.GC() // see core.RunWorker
 		core.StartWatchdog("", core.HangCPULimit(8*time.Second))
 		core.WatchdogArm(raw)
 		if *prelude != "" {
